@@ -25,3 +25,4 @@ open RV.C20
 #print axioms accept_names_result_format
 #print axioms result_decoding_exact
 #print axioms answer_comes_back
+#print axioms context_argument_reaches_endpoint
